@@ -570,3 +570,26 @@ func extReflectliteDummyType(fr *frame, a []value) value {
 	}
 	return iface{t: types.NewPointer(rl.Type("rtype").Type()), v: (*value)(nil)}
 }
+
+// math.Pow10 of a symbolic exponent: a table (ite chain) when the exponent is
+// provably within [-16,16], else concretised.
+func extMathPow10(fr *frame, a []value) value {
+	i := fr.i
+	s, ok := a[0].(sym)
+	if !ok {
+		return math.Pow10(int(asInt64(a[0])))
+	}
+	st := i.st
+	w := s.t.S.W
+	lim := 16
+	out := st.Or(st.BVCmp("bvslt", s.t, st.BVConst(uint64(-int64(lim)), w)), st.BVCmp("bvslt", st.BVConst(uint64(lim), w), s.t))
+	if r, _ := i.checkSat(out); r != Unsat {
+		return math.Pow10(int(i.concretize(a[0], "math.Pow10 exponent")))
+	}
+	i.addFact(st.Not(out))
+	t := st.FPConst(math.Pow10(lim))
+	for e := lim - 1; e >= -lim; e-- {
+		t = st.Ite(st.Eq(s.t, st.BVConst(uint64(int64(e)), w)), st.FPConst(math.Pow10(e)), t)
+	}
+	return i.mkSym(t, types.Float64)
+}
